@@ -504,4 +504,163 @@ Section Sound.
     - intros i f fa s Hf Hfa Hs. rewrite nth_error_map, Hf in Hs. injection Hs as <-. apply default_cslot.
     - intros oi _. rewrite default_count, default_state. split; [lia|left; reflexivity].
   Qed.
+
+  (* ---- the loops of setFieldValue ---------------------------------------------------------------- *)
+  Hypothesis Hfm : fmap_gen_sound o.
+
+  (* what a call of setFields at nesting depth d returns *)
+  Definition child_sound (child : child_t) (d : nat) : Prop :=
+    forall ic mid cur tp res tp', child d ic mid cur tp = Ok (res, tp') ->
+      match res with
+      | Some v => (d <= 10)%nat /\ (is_any ann mid = true -> has_urls o = true) /\ is_msgv v = true /\
+                  (exists md ma, get_msg sch mid = Some md /\ nth_error ann mid = Some ma) /\
+                  forall q, cur_ok o sch ann (12 - d) q mid cur -> SD (12 - d) (q + 1) ic mid v
+      | None => (10 < d)%nat \/ (is_any ann mid = true /\ has_urls o = false)
+      end.
+
+  Lemma container_ok_iff depth tm :
+    child_ok_container vr o ann (12 - S depth) tm = true <->
+    ((S depth <= 10)%nat /\ (is_any ann tm = true -> has_urls o = true)).
+  Proof.
+    unfold child_ok_container. cbn [v_any_container repaired negb]. rewrite orb_false_r. split.
+    - intros H. apply andb_true_iff in H. destruct H as [H1 H2]. apply Nat.leb_le in H1. split; [lia|].
+      intros Ea. rewrite Ea in H2. exact H2.
+    - intros [H1 H2]. apply andb_true_iff. split; [apply Nat.leb_le; lia|]. destruct (is_any ann tm); auto.
+  Qed.
+
+  Lemma scalar_loop_ok k decl : (k = KEnum -> enum_decl_ok decl) -> forall n l tp,
+    Forall (fun e => rg_scalar vr o k decl e = true) l ->
+    Forall (fun e => rg_scalar vr o k decl e = true) (fst (scalar_loop vr o k decl n l tp)) /\
+    length (fst (scalar_loop vr o k decl n l tp)) = (length l + n)%nat.
+  Proof.
+    intros He. induction n as [|n IH]; intros l tp Hl; cbn [scalar_loop]; [cbn [fst]; split; [exact Hl|lia]|].
+    pose proof (gen_scalar_ok o k decl tp Hfm He) as Hv. destruct (gen_scalar vr o k decl tp) as [v t1]. cbn [fst] in Hv.
+    destruct (IH (l ++ [v]) t1) as [H1 H2]; [apply Forall_app; split; [exact Hl|constructor; [exact Hv|constructor]]|].
+    split; [exact H1|]. rewrite H2, app_length. cbn [length]. lia.
+  Qed.
+
+  Definition elem_ok (depth : nat) (fa : fannot) (tm : nat) (m : N) (e : val) : Prop :=
+    is_msgv e = true /\ SD (12 - S depth) m (IField (a_iface fa)) tm e.
+
+  Lemma list_loop_ok child depth fa tm : child_sound child (S depth) ->
+    forall k i l tp l' tp', list_loop vr sch child depth fa tm k i l tp = Ok (l', tp') ->
+      Forall (elem_ok depth fa tm 1) l ->
+      Forall (elem_ok depth fa tm 1) l' /\
+      (child_ok_container vr o ann (12 - S depth) tm = true -> length l' = (length l + k)%nat) /\
+      (child_ok_container vr o ann (12 - S depth) tm = false -> l' = l).
+  Proof.
+    intros Hc. induction k as [|k IH]; intros i l tp l' tp'; cbn [list_loop].
+    - intros E Hl. injection E as <- <-. repeat split; auto.
+    - destruct (child (S depth) (IField (a_iface fa)) tm (fresh sch tm) tp) as [[[e|] t1]| | |] eqn:Ec; try discriminate.
+      + specialize (Hc _ _ _ _ _ _ Ec). cbn beta iota in Hc. destruct Hc as (Hd & Ha & Hm & (md & ma & Hg & Hn) & Hs).
+        intros E Hl. specialize (IH _ _ _ _ _ E).
+        assert (He : elem_ok depth fa tm 1 e).
+        { split; [exact Hm|]. apply (Hs 0). replace (12 - S depth)%nat with (S (11 - S depth)) by lia. eapply fresh_cur_ok; eauto. }
+        destruct IH as (I1 & I2 & I3); [apply Forall_app; split; [exact Hl|constructor; [exact He|constructor]]|].
+        assert (Hok : child_ok_container vr o ann (12 - S depth) tm = true) by (apply container_ok_iff; split; assumption).
+        split; [exact I1|]. split.
+        * intros _. rewrite (I2 Hok), app_length. cbn [length]. lia.
+        * intros Hf. congruence.
+      + specialize (Hc _ _ _ _ _ _ Ec). cbn beta iota in Hc. cbn [v_list_truncate repaired].
+        assert (Hok : child_ok_container vr o ann (12 - S depth) tm = false).
+        { destruct (child_ok_container vr o ann (12 - S depth) tm) eqn:E0; [|reflexivity].
+          apply container_ok_iff in E0. destruct E0 as [E1 E2]. destruct Hc as [Hc|[Hc1 Hc2]]; [lia|]. rewrite (E2 Hc1) in Hc2. discriminate. }
+        intros E Hl. destruct (IH _ _ _ _ _ E Hl) as (I1 & I2 & I3). split; [exact I1|]. split.
+        * intros Ht. congruence.
+        * intros _. apply I3. exact Hok.
+  Qed.
+
+  (* ---- association lists ---- *)
+  Lemma Forall_map_set (P : val * val -> Prop) kvs k v : Forall P kvs -> P (k, v) -> Forall P (map_set kvs k v).
+  Proof.
+    intros H Hp. induction H as [|[k0 v0] t H0 Ht IH]; cbn [map_set]; [constructor; [exact Hp|constructor]|].
+    destruct (val_key_eqb k0 k); constructor; auto.
+  Qed.
+  Lemma Forall_map_remove (P : val * val -> Prop) kvs k : Forall P kvs -> Forall P (map_remove kvs k).
+  Proof.
+    induction 1 as [|[k0 v0] t H0 H IH]; cbn [map_remove]; [constructor|]. destruct (val_key_eqb k0 k); [exact H|constructor; auto].
+  Qed.
+  Lemma existsb_map_remove (Q : val -> bool) kvs k :
+    existsb Q (map fst (map_remove kvs k)) = true -> existsb Q (map fst kvs) = true.
+  Proof.
+    induction kvs as [|[k0 v0] t IH]; cbn [map_remove map fst existsb]; auto.
+    destruct (val_key_eqb k0 k); cbn [map fst existsb]; intros H.
+    - rewrite H. apply orb_true_r.
+    - apply orb_true_iff in H. destruct H as [H|H]; [rewrite H; reflexivity|rewrite (IH H); apply orb_true_r].
+  Qed.
+  Lemma map_remove_nodup kvs k : nodup_keys (map fst kvs) = true -> nodup_keys (map fst (map_remove kvs k)) = true.
+  Proof.
+    induction kvs as [|[k0 v0] t IH]; cbn [map_remove map fst nodup_keys]; auto. intros H. splitb.
+    destruct (val_key_eqb k0 k); [assumption|]. cbn [map fst nodup_keys]. apply andb_true_iff. split; [|apply IH; assumption].
+    destruct (existsb (val_key_eqb k0) (map fst (map_remove t k))) eqn:E; [|reflexivity].
+    apply existsb_map_remove in E. rewrite E in H. discriminate.
+  Qed.
+  Lemma map_set_length kvs k v : (length (map_set kvs k v) <= S (length kvs))%nat.
+  Proof. induction kvs as [|[k0 v0] t IH]; cbn [map_set length]; [lia|]. destruct (val_key_eqb k0 k); cbn [length]; lia. Qed.
+  Lemma map_remove_length kvs k : (length (map_remove kvs k) <= length kvs)%nat.
+  Proof. induction kvs as [|[k0 v0] t IH]; cbn [map_remove length]; [lia|]. destruct (val_key_eqb k0 k); cbn [length]; lia. Qed.
+  Lemma map_get_in kvs k x : map_get kvs k = Some x -> exists k', In (k', x) kvs.
+  Proof.
+    induction kvs as [|[k0 v0] t IH]; cbn [map_get]; [discriminate|]. destruct (val_key_eqb k0 k).
+    - intros E. injection E as <-. exists k0. left. reflexivity.
+    - intros E. destruct (IH E) as [k' H]. exists k'. right. exact H.
+  Qed.
+
+  Definition mval_ok (depth : nat) (fa : fannot) (ty : ftype) (m : N) (x : val) : Prop :=
+    match ty with
+    | TScalar k => rg_scalar vr o k (a_enum fa) x = true
+    | TMsg tm => elem_ok depth fa tm m x
+    end.
+  Definition entry_ok (depth : nat) (kk : kind) (fa : fannot) (ty : ftype) (m : N) (kv : val * val) : Prop :=
+    rg_scalar vr o kk [] (fst kv) = true /\ mval_ok depth fa ty m (snd kv).
+
+  Lemma entry_ok_mono depth kk fa ty m m' kv : m <= m' -> entry_ok depth kk fa ty m kv -> entry_ok depth kk fa ty m' kv.
+  Proof.
+    intros Hm [H1 H2]. split; [exact H1|]. unfold mval_ok in *. destruct ty; [exact H2|].
+    destruct H2 as [A B]. split; [exact A|]. eapply sdeep_mono; eauto.
+  Qed.
+
+  Definition map_tail_ok (depth : nat) (ty : ftype) (kvs : list (val * val)) : Prop :=
+    match ty with TScalar _ => True | TMsg tm => kvs = [] \/ child_ok_container vr o ann (12 - S depth) tm = true end.
+
+  Lemma map_loop_ok child depth kk ty fa : child_sound child (S depth) -> kk <> KEnum ->
+    (forall k, ty = TScalar k -> k = KEnum -> enum_decl_ok (a_enum fa)) ->
+    forall n kvs tp kvs' tp' m, map_loop vr o sch child depth kk ty fa n kvs tp = Ok (kvs', tp') ->
+      nodup_keys (map fst kvs) = true -> Forall (entry_ok depth kk fa ty m) kvs -> map_tail_ok depth ty kvs ->
+      nodup_keys (map fst kvs') = true /\ Forall (entry_ok depth kk fa ty (m + N.of_nat n)) kvs' /\
+      (length kvs' <= length kvs + n)%nat /\ map_tail_ok depth ty kvs'.
+  Proof.
+    intros Hc Hkk Hen. induction n as [|n IH]; intros kvs tp kvs' tp' m; cbn [map_loop].
+    - intros E Hn Hf Ht. injection E as <- <-. repeat split; auto; [|lia].
+      eapply Forall_impl; [|exact Hf]. intros kv. apply entry_ok_mono. lia.
+    - pose proof (gen_scalar_ok o kk [] tp Hfm ltac:(intros; congruence)) as Hkey.
+      destruct (gen_scalar vr o kk [] tp) as [key t1]. cbn [fst] in Hkey.
+      assert (Hmono : forall l, Forall (entry_ok depth kk fa ty m) l -> Forall (entry_ok depth kk fa ty (m + 1)) l).
+      { intros l Hl. eapply Forall_impl; [|exact Hl]. intros kv. apply entry_ok_mono. lia. }
+      assert (Harith : m + 1 + N.of_nat n = m + N.of_nat (S n)) by lia.
+      destruct ty as [k|tm].
+      + pose proof (gen_scalar_ok o k (a_enum fa) t1 Hfm (Hen k eq_refl)) as Hv.
+        destruct (gen_scalar vr o k (a_enum fa) t1) as [v t2]. cbn [fst] in Hv.
+        intros E Hn Hf Ht. destruct (IH _ _ _ _ (m + 1) E) as (I1 & I2 & I3 & I4).
+        * apply map_set_nodup. exact Hn.
+        * apply Forall_map_set; [apply Hmono; exact Hf|]. split; [exact Hkey|exact Hv].
+        * exact I.
+        * rewrite Harith in I2. repeat split; auto. pose proof (map_set_length kvs key v). lia.
+      + match goal with |- context [child ?a ?b ?c ?d ?e] => destruct (child a b c d e) as [[[v|] t2]| | |] eqn:Ec end; try discriminate.
+        * specialize (Hc _ _ _ _ _ _ Ec). cbn beta iota in Hc. destruct Hc as (Hd & Ha & Hm & (md & ma & Hg & Hna) & Hs).
+          intros E Hn Hf Ht. destruct (IH _ _ _ _ (m + 1) E) as (I1 & I2 & I3 & I4).
+          -- apply map_set_nodup. exact Hn.
+          -- apply Forall_map_set; [apply Hmono; exact Hf|]. split; [exact Hkey|]. cbn [snd mval_ok]. split; [exact Hm|].
+             destruct (map_get kvs key) as [x|] eqn:Eg.
+             ++ destruct (map_get_in _ _ _ Eg) as [k' Hin]. rewrite Forall_forall in Hf. destruct (Hf _ Hin) as [_ [Hx1 Hx2]]. cbn [snd] in *.
+                apply Hs. unfold or_fresh. destruct x; try discriminate. eapply sdeep_cur_ok. exact Hx2.
+             ++ apply (sdeep_mono _ 1 (m + 1)); [lia|]. apply (Hs 0). replace (12 - S depth)%nat with (S (11 - S depth)) by lia. eapply fresh_cur_ok; eauto.
+          -- right. apply container_ok_iff. split; assumption.
+          -- rewrite Harith in I2. repeat split; auto. pose proof (map_set_length kvs key v). lia.
+        * intros E Hn Hf Ht. destruct (IH _ _ _ _ (m + 1) E) as (I1 & I2 & I3 & I4).
+          -- apply map_remove_nodup. exact Hn.
+          -- apply Forall_map_remove. apply Hmono. exact Hf.
+          -- destruct Ht as [->|Ht]; [left; reflexivity|right; exact Ht].
+          -- rewrite Harith in I2. repeat split; auto. pose proof (map_remove_length kvs key). lia.
+  Qed.
 End Sound.
